@@ -11,7 +11,7 @@ from .. import tu, gen
 
 PROPERTY = "C03"
 RULE = ("laws: Hypothesis draws triples X,Y,Z of one group type (generators of C02: both quaternion hemispheres, "
-        "angles at 0/pi, |w|~0, |v|~0, translations 0..1e3 from the regime table, scales 1, 1+-2^k eps, e^[-4,4]) and "
+        "angles at 0/pi, |w|~0, |v|~0, translations 0..1e3 from the regime table, scales 1, 1+-2^k eps, e^[-4,4] and extreme 10^[-18,18] (10^[-10,10] in float32)) and "
         "points p in R^3, R^4 (w in {0,1,random}); the reference matrix M(X) is built from the raw components by the "
         "textbook quaternion formula in float64 (3x3 R, 4x4 [sR t;0 1]).  Checked: matrix()==M(X) and its blocks equal "
         "rotation()/translation()/scale(); M(X@Y)=M(X)M(Y); associativity; X@Inv(X)=Inv(X)@X=I; identity constructors "
@@ -63,6 +63,11 @@ class Laws(Sub):
                         o = 3 if lt in ("SE3", "Sim3") else 0
                         X = X[:o] + q + X[o + 4:]
                         reg = dict(reg, q="rand")
+                if lt in ("RxSO3", "Sim3") and draw(st.integers(0, 4)) == 0:
+                    # extreme but valid positive scales (far below eps / far above 1/eps of the dtype)
+                    E = 18 if dtype == "float64" else 10
+                    X = X[:-1] + [gen.rnd(10.0 ** draw(st.integers(-E, E)) * draw(st.floats(1.0, 9.0)), dtype)]
+                    reg = dict(reg, s="s:extreme")
                 els.append(X); regs.append(reg)
             p3, _ = draw(gen.vec3(dtype, cap=1e3))
             w = draw(st.sampled_from((0.0, 1.0, 1.0, -2.5, 0.37)))
